@@ -30,7 +30,7 @@
 #include <unistd.h>
 
 #define ERRMAX 1200
-#define MAXOPTS 32
+#define MAXOPTS 2100   // option-repetition families pass up to 2 x 1000 options
 #define MAXFRAMES 400
 #define STACK_LIMIT (8L << 20)
 
